@@ -290,17 +290,30 @@ pub fn run(tier: Tier) -> i32 {
             let mut acc_s = Acc::new();
             for w in &words {
                 let parts: Vec<&str> = w.split(' ').collect();
-                for frame in 0..3 {
+                for frame in 0..6 {
                     let mut syms: Vec<&str> = vec![];
-                    if frame > 0 {
-                        syms.push(c.ordinary.as_str());
-                    }
-                    syms.extend(parts.iter().copied());
-                    if frame == 2 {
-                        syms.push(",");
-                    }
-                    if frame > 0 {
-                        syms.push(c.ordinary.as_str());
+                    match frame {
+                        0 => syms.extend(parts.iter().copied()),
+                        1 | 2 => {
+                            syms.push(c.ordinary.as_str());
+                            syms.extend(parts.iter().copied());
+                            if frame == 2 {
+                                syms.push(",");
+                            }
+                            syms.push(c.ordinary.as_str());
+                        }
+                        // next to another small number: across a comma, across a linking word, across an ordinary word
+                        _ => {
+                            syms.push(c.ordinary.as_str());
+                            syms.extend(parts.iter().copied());
+                            syms.push(match frame {
+                                3 => ",",
+                                4 => c.linking.as_str(),
+                                _ => c.ordinary.as_str(),
+                            });
+                            syms.push(c.unit.as_str());
+                            syms.push(c.ordinary.as_str());
+                        }
                     }
                     one_stream_t(&ctx, &mut acc_s, l, &lang, &syms, &thr);
                 }
@@ -319,7 +332,7 @@ pub fn run(tier: Tier) -> i32 {
         "bounds": {"wide_alphabet": n1, "wide_depth": k1, "deep_alphabet": n2, "deep_depth": k2, "long_streams": {"alphabet": "deep", "pattern_depth": 2, "repetitions_up_to": rmax}},
         "thresholds": T.iter().map(|t| thr_name(*t)).collect::<Vec<_>>(),
         "boundary_stage": {"alphabet": "one, unit, unit2, zero, small ordinal, large ordinal, tens, ordinary word, comma", "depth": 4, "thresholds": bt.iter().map(|t| if t.is_finite() { format!("{t:e}") } else { thr_name(*t) }).collect::<Vec<_>>()},
-        "threshold_sweep": {"numbers": "cardinals 0..=21, ordinals 1st..=45th (standard spelling, first inflection)", "frames": ["alone", "between ordinary words", "before a comma"], "thresholds": "k/2 for k in 0..=120"},
+        "threshold_sweep": {"numbers": "cardinals 0..=21, ordinals 1st..=45th (standard spelling, first inflection)", "frames": ["alone", "between ordinary words", "before a comma", "comma, then a unit", "linking word, then a unit", "ordinary word, then a unit"], "thresholds": "k/2 for k in 0..=120"},
         "alphabets": alphas,
     });
     ctx.finish(total, cov, vec![
